@@ -37,6 +37,7 @@ class ImplWorld:
         self.pool = pool
         self.trees = []
         self.hooks = []
+        self.graveyard = []   # node objects that were removed from their tree, in the order they vanished (stale references a caller may still hold)
 
     def new(self, typed=False, hook=None):
         kw = {}
@@ -66,6 +67,8 @@ class ImplWorld:
 
     def resolve_before(self, op):
         b = op.get("before")
+        if isinstance(b, dict) and "dead" in b:
+            return self.graveyard[b["dead"] % len(self.graveyard)]   # a node that was removed earlier
         if isinstance(b, dict):
             ti = b.get("ft", op["t"])
             return self.node(ti, b["path"])
@@ -86,6 +89,18 @@ class ImplWorld:
 
     def apply(self, op):
         """returns 'ok' or the error class"""
+        before = [n for t in self.trees for n in t]
+        try:
+            return self._apply_res(op)
+        finally:
+            try:
+                alive = {id(n) for t in self.trees for n in t}
+                self.graveyard += [n for n in before if id(n) not in alive and not any(n is g for g in self.graveyard[-50:])]
+                del self.graveyard[:-200]
+            except Exception:  # noqa  (a corrupted tree that cannot be iterated: the oracles report it)
+                pass
+
+    def _apply_res(self, op):
         try:
             self._apply(op)
             return "ok"
@@ -94,6 +109,8 @@ class ImplWorld:
         except RecursionError:
             return "recursion"
         except Exception as e:  # noqa
+            if type(e).__name__ == "Boom":     # props/c08.py: the exception a harness predicate raises ("raiseOther")
+                return "callback"
             return adapter.err_class(e)
 
     def _apply(self, op):
@@ -314,7 +331,9 @@ def model_op(op, impl):
         m["did"] = None
         m["clones"] = None
     b = m.get("before")
-    if isinstance(b, dict) and b.get("ft", op.get("t")) != op.get("t"):
+    if isinstance(b, dict) and "dead" in b:
+        m["before"] = {"path": [], "foreign": True}    # a removed node is no child of any node
+    elif isinstance(b, dict) and b.get("ft", op.get("t")) != op.get("t"):
         m["before"] = {"path": b["path"], "foreign": True}
     if op["op"] == "w.copykids":
         if not op["sp"] and op.get("tree_api", True):
